@@ -23,7 +23,7 @@ func init() {
 		Assumptions: []string{"Tendermint applies ResponseEndBlock.ValidatorUpdates with ValidatorSet.UpdateWithChangeSet (pinned tendermint v0.37.0-rc2) after rejecting negative powers", "DevMode is off"},
 		Real:        []string{"app.ShutterApp", "app.DiffPowermaps/ValidatorUpdates", "tendermint/types.ValidatorSet"},
 		Stub:        []string{"Tendermint consensus, mempool, block store (simtm)"},
-		QuickRuns:   6000, ThoroughRuns: 600000, QuickMinimize: 300, ThoroughMinimize: 2000,
+		QuickRuns:   20000, ThoroughRuns: 600000, QuickMinimize: 300, ThoroughMinimize: 2000,
 	})
 }
 
